@@ -387,6 +387,10 @@ pub fn c19_strategy(_ctx: &Ctx) -> BoxedStrategy<C19Case> {
           t.push(Action::Advance(0));
         }
       }
+      // sometimes one more thread that only reads Subscription::is_subscribed()
+      if len1 % 2 == 0 && len0 % 2 == 1 {
+        threads.push(vec![Action::IsSubscribed(0); 1 + len1]);
+      }
       let actions = if shape.ends_with("_late") {
         emit(0, &unique_script(2, len1, None))
       } else {
